@@ -102,6 +102,21 @@ def mutate(tok, rng, tier):
     return out
 
 
+def text_mutations(v, rng):
+    """(kind, text) variants of one base64url member of a JSON serialization: bit flips (incl. the spare low bits of the last character,
+    which leave the decoded octets unchanged), truncation, extension, padding"""
+    alphabet = "ABCDEFGHIJKLMNOPQRSTUVWXYZabcdefghijklmnopqrstuvwxyz0123456789-_"
+    out = []
+    if not v:
+        return out
+    for i in sorted(set(rng.sample(range(len(v)), min(3, len(v))) + [0, len(v) - 1])):
+        for bit in (0, 1, 5):
+            ch = alphabet[alphabet.index(v[i]) ^ (1 << bit)]
+            out.append((f"flip@{'last' if i == len(v) - 1 else 'in'}", v[:i] + ch + v[i + 1:]))
+    out += [("truncate", v[:-1]), ("extend", v + "A"), ("pad", v + "="), ("pad2", v + "=="), ("empty", "")]
+    return out
+
+
 def cases(rng, tier):
     jws = JsonWebSignature()
     out = []
@@ -155,6 +170,9 @@ def cases(rng, tier):
     for crv in ("Ed25519", "Ed448"):
         for ser in ("compact", "flat", "general", "jwt"):
             out.append({"op": "eddsa_curve", "crv": crv, "ser": ser, "alg": "EdDSA", "kind": "okp-curve"})
+    # the library's default instance `authlib.jose.jwt` (what the rest of the library and most applications use): every registered algorithm but none
+    for alg in [a for a in R.ALL_ALGS if a != "none"]:
+        out.append({"op": "default_jwt", "alg": alg, "kind": "default-instance"})
     payloads = PAYLOADS if tier == "thorough" else PAYLOADS[:5]
     for alg in R.ALL_ALGS:
         key = raw_key(alg)
@@ -194,7 +212,7 @@ def cases(rng, tier):
         # JSON forms
         if alg != "none":
             k_ = authlib_key(alg, 1, "key", True)
-            flat = jws.serialize_json({"protected": {"alg": alg}, "header": {"kid": "k1"}}, b"json payload", k_)
+            flat = jws.serialize_json({"protected": {"alg": alg}, "header": {"kid": "k1"}}, b"json payload!", k_)     # 13 octets: the last payload character has spare bits
             out.append({"op": "json", "alg": alg, "kn": 1, "form": "key", "allowed": None, "obj": flat, "kind": "own-flat", "expect": "accept"})
             out.append({"op": "json", "alg": alg, "kn": 2, "form": "key", "allowed": None, "obj": flat, "kind": "flat-other-key"})
             for name in ("protected", "signature", "payload"):
@@ -203,8 +221,10 @@ def cases(rng, tier):
                 out.append({"op": "json", "alg": alg, "kn": 1, "form": "key", "allowed": None, "obj": dict(flat, **{name: v[:2] + c + v[3:]}), "kind": f"flat-flip:{name}"})
                 d = dict(flat); d.pop(name)
                 out.append({"op": "json", "alg": alg, "kn": 1, "form": "key", "allowed": None, "obj": d, "kind": f"flat-missing:{name}"})
+                for mk, mv in text_mutations(v, rng):
+                    out.append({"op": "json", "alg": alg, "kn": 1, "form": "key", "allowed": None, "obj": dict(flat, **{name: mv}), "kind": f"flat-{mk}:{name}"})
             for n in (1, 2, 3):
-                gen = jws.serialize_json([{"protected": {"alg": alg, "i": i}} for i in range(n)], b"general payload", k_)
+                gen = jws.serialize_json([{"protected": {"alg": alg, "i": i}} for i in range(n)], b"general payload.", k_)
                 out.append({"op": "json", "alg": alg, "kn": 1, "form": "key", "allowed": None, "obj": gen, "kind": f"own-general:{n}", "expect": "accept"})
                 for i in range(n):
                     sigs = [dict(e) for e in gen["signatures"]]
@@ -214,6 +234,13 @@ def cases(rng, tier):
                     sigs2 = [dict(e) for j, e in enumerate(gen["signatures"]) if j != i]
                     out.append({"op": "json", "alg": alg, "kn": 1, "form": "key", "allowed": None, "obj": dict(gen, signatures=sigs2), "kind": f"general-drop-entry:{n}"})
                 out.append({"op": "json", "alg": alg, "kn": 1, "form": "key", "allowed": None, "obj": dict(gen, signatures=[]), "kind": "general-no-signatures"})
+                if n == 2:
+                    for mk, mv in text_mutations(gen["payload"], rng):
+                        out.append({"op": "json", "alg": alg, "kn": 1, "form": "key", "allowed": None, "obj": dict(gen, payload=mv), "kind": f"general-{mk}:payload"})
+                    for name in ("protected", "signature"):
+                        for mk, mv in text_mutations(gen["signatures"][1][name], rng)[-8:]:
+                            sigs = [dict(e) for e in gen["signatures"]]; sigs[1][name] = mv
+                            out.append({"op": "json", "alg": alg, "kn": 1, "form": "key", "allowed": None, "obj": dict(gen, signatures=sigs), "kind": f"general-{mk}:{name}"})
     return out
 
 
@@ -243,6 +270,28 @@ def impl(c):
         h = r["header"] if c["ser"] == "flat" else r["header"][0]
         return {"signed_protected": signed, "wire_unprotected": ent.get("header"), "reported_protected": dict(h.protected), "reported_unprotected": dict(h.header),
                 "want": [prot, unprot], "ref_ok": bool(R.verify(c["alg"], raw_key(c["alg"]), ent["protected"].encode() + b"." + o["payload"].encode(), lenient(ent["signature"].encode())))}
+    if c["op"] == "default_jwt":
+        from authlib.jose import jwt as default_jwt
+        alg, res = c["alg"], {}
+        priv, pub = authlib_key(alg, 1, "key", True), authlib_key(alg, 1, "key", False)
+        claims = {"sub": "s", "n": 1}
+        try:
+            t = default_jwt.encode({"alg": alg}, claims, priv)
+            res["own"] = dict(default_jwt.decode(t, pub)) == claims
+            si, sg = t.rsplit(b".", 1)
+            res["ref_accepts"] = bool(R.verify(alg, raw_key(alg), si, lenient(sg)))
+        except Exception as e:
+            res["own"] = type(e).__name__
+        try:
+            rt = R.ref_serialize_compact({"alg": alg}, json.dumps(claims).encode(), raw_key(alg))
+            res["interop_in"] = dict(default_jwt.decode(rt, pub)) == claims
+        except Exception as e:
+            res["interop_in"] = type(e).__name__
+        try:
+            default_jwt.decode(rt, authlib_key(alg, 2, "key", False)); res["other_key"] = "accepted"
+        except Exception:
+            res["other_key"] = "refused"
+        return res
     if c["op"] == "json_mixed":
         J = JsonWebSignature(algorithms=[c["alg"]])
         key, pub = authlib_key(c["alg"], 1, "key", True), authlib_key(c["alg"], 1, "key", False)
@@ -422,7 +471,7 @@ def verify_entries(c, pairs):
 
 
 def model_line(c):
-    if c["op"] in ("hskey", "jwt_reuse", "eddsa_curve", "keyset_rotation", "resolver", "json_headers", "json_mixed"):
+    if c["op"] in ("default_jwt", "hskey", "jwt_reuse", "eddsa_curve", "keyset_rotation", "resolver", "json_headers", "json_mixed"):
         return None
     if c["op"] == "hmac":
         return {"op": "hmac", "bits": c["bits"], "k": c["k"], "m": c["m"], "key": {"oct": ""}, "headers": {}}
@@ -479,6 +528,14 @@ def oracle(c, out):
                       {"alg": c["alg"], "op": "json_headers", "kind": "wrong-content"}))
         if not out["ref_ok"]:
             v.append((f"{c['ser']} JSON JWS is not accepted by the independent verifier", {"alg": c["alg"], "op": "json_headers", "kind": "own-token-refused"}))
+        return v
+    if c["op"] == "default_jwt":
+        want = {"own": True, "ref_accepts": True, "interop_in": True, "other_key": "refused"}
+        for k_ in want:
+            if out.get(k_, want[k_] if k_ == "ref_accepts" else None) != want[k_]:
+                v.append((f"default authlib.jose.jwt instance, {c['alg']}: {k_} = {out.get(k_)!r}, expected {want[k_]!r}",
+                          {"alg": c["alg"], "op": "default_jwt", "kind": "accepted-unverified" if k_ == "other_key" else "own-token-refused"}))
+                break
         return v
     if c["op"] == "json_mixed":
         if out["accepted"]:
@@ -577,6 +634,8 @@ def classify(c, out):
         return f"keyset_rotation/{c['how']}"
     if c["op"] == "resolver":
         return "resolver/" + ("accepted" if out.get("accepted") else "refused")
+    if c["op"] == "default_jwt":
+        return "default_jwt/" + c["alg"][:2]
     if c["op"] in ("json_headers", "json_mixed"):
         return c["op"] + "/" + c.get("ser", c.get("order", ""))
     if c["op"] == "jwt_reuse":
@@ -593,6 +652,8 @@ def nontrivial(c, out):
         return [c["alg"], c["how"]]
     if c["op"] == "resolver":
         return [c[k] for k in ("alg", "returns", "signed_by", "jwk_header", "api")]
+    if c["op"] == "default_jwt":
+        return [c["alg"]]
     if c["op"] in ("json_headers", "json_mixed"):
         return [c.get(k) for k in ("op", "alg", "ser", "bad_alg", "order")]
     if c["op"] == "jwt_reuse":
